@@ -4,7 +4,7 @@
    input-writing statement form, and every slice they fill is freshly allocated by the same step. *)
 From NV Require C19.Globals.
 From NV Require Codec.Stmt Codec.StmtProofs.
-From NV Require Import Lib.Base Lib.BV Codec.Lang Codec.Def Codec.Sem Codec.Purity Codec.Final
+From NV Require Import Lib.Base Lib.BV Codec.Lang Codec.Def Codec.Sem Codec.Purity Codec.Dispatch Codec.GenDefs Codec.Final
   C09.Types C09.Check C09.All C19.Globals Gen.GenMsgs Gen.GenTypes.
 From Coq Require Import String.
 Open Scope N_scope.
@@ -33,6 +33,21 @@ Proof. exact setlen_alloc_meaning. Qed.
 Theorem C10_encode_appends : forall pre d m e,
   encode_def d m = Ok e -> encode_into pre d m = Ok (pre ++ e)%list.
 Proof. exact encode_into_appends. Qed.
+
+(* non-vacuity: a well-formed AuthenticationRequest encodes, and encoding it behind two octets already in
+   the buffer leaves those two octets in place *)
+Example C10_example :
+  match find_def "AuthenticationRequest" with
+  | Some d =>
+      let m := [Some (mkie 0 0 [126]); Some (mkie 0 0 [0]); Some (mkie 0 0 [86]); Some (mkie 0 0 [1]);
+                Some (mkie 0 2 [0; 0]);
+                Some (mkie 33 0 [1;2;3;4;5;6;7;8;9;10;11;12;13;14;15;16]); None;
+                Some (mkie 120 4 [2; 1; 0; 4])] in
+      let e := [126;0;86;1; 2;0;0; 33;1;2;3;4;5;6;7;8;9;10;11;12;13;14;15;16; 120;0;4;2;1;0;4] in
+      encode_def d m = Ok e /\ encode_into [170; 187] d m = Ok ([170; 187] ++ e)%list
+  | None => False
+  end.
+Proof. vm_compute. repeat split. Qed.
 
 (* the codec packages import nothing that could make them non-deterministic *)
 Theorem C10_codec_imports_pure : codec_imports_ok = true.
